@@ -4934,6 +4934,12 @@ where
                 repair_delaunay_with_flips_k2_k3(tds, kernel, seed_ref, topology).map(|_| ())
             };
 
+            #[cfg(feature = "verif-hooks")]
+            let repair_result = if crate::verif_hooks::hit("dt.repair_result") {
+                Err(crate::verif_hooks::repair_err("dt.repair_result"))
+            } else {
+                repair_result
+            };
             match repair_result {
                 Ok(()) => {}
                 Err(
@@ -4970,6 +4976,10 @@ where
         // introduce PL-manifold violations (e.g., disconnected ridge links). Catch those
         // locally and surface an insertion error so the outer transactional guard can roll
         // back the insertion.
+        verif_failpoint!(
+            "dt.after_repair",
+            crate::verif_hooks::ins_err("dt.after_repair")
+        );
         if topology.requires_ridge_links() {
             let local_cells: Vec<CellKey> = self.tri.adjacent_cells(vertex_key).collect();
             if !local_cells.is_empty()
@@ -5007,6 +5017,7 @@ where
                     source: Box::new(source),
                 }
             })?;
+        verif_failpoint!("dt.orient", crate::verif_hooks::ins_err("dt.orient"));
         self.tri
             .validate_geometric_cell_orientation()
             .map_err(|err| InsertionError::TopologyValidationFailed {
@@ -5030,6 +5041,7 @@ where
             return Ok(());
         }
 
+        verif_failpoint!("dt.check", crate::verif_hooks::ins_err("dt.check"));
         self.is_valid()
             .map_err(|e| InsertionError::DelaunayValidationFailed {
                 message: e.to_string(),
@@ -5135,6 +5147,7 @@ where
                 .map_err(TriangulationValidationError::from)?,
         };
 
+        verif_failpoint!("dtrm.removed", crate::verif_hooks::tri_err("dtrm.removed"));
         let topology = self.tri.topology_guarantee();
         if self.should_run_delaunay_repair_for(topology, 0) {
             let seed_ref = seed_cells.as_deref();
@@ -5146,6 +5159,10 @@ where
             })?;
         }
 
+        verif_failpoint!(
+            "dtrm.repaired",
+            crate::verif_hooks::tri_err("dtrm.repaired")
+        );
         Ok(cells_removed)
     }
 
@@ -5740,7 +5757,10 @@ where
         VerifHiddenState {
             last_inserted_cell: self.insertion_state.last_inserted_cell,
             repair_insertion_count: self.insertion_state.delaunay_repair_insertion_count,
-            spatial_index: self.spatial_index.as_ref().map(HashGridIndex::verif_entries),
+            spatial_index: self
+                .spatial_index
+                .as_ref()
+                .map(HashGridIndex::verif_entries),
         }
     }
 
